@@ -95,3 +95,49 @@ def cc_body(k: str, v: str = "d", w: str = "e") -> str:
     if CC_FAIL.pop(inv.invocation_id, None) == "retry":
         raise RetryError("again")
     return f"{k}|{v}|{w}"
+
+
+# ---- effect-program tracing (harness/translate/programs.py) ---------------------------------------
+class ProgError(Exception):
+    pass
+
+
+def prog_body(mode: str) -> str:
+    if mode == "fail":
+        raise ProgError("boom", 7)
+    return mode
+
+
+def prog_retry(x: str) -> str:
+    from pynenc.exceptions import RetryError
+
+    raise RetryError("later")
+
+
+# ---- C05: outcome path ----------------------------------------------------------------------------
+def c05_echo(v):  # type: ignore[no-untyped-def]
+    return v
+
+
+def c05_make_exc(name: str, args: list) -> BaseException:
+    import builtins
+
+    from pynenc.exceptions import RetryError
+
+    if name == "ProgError":
+        return ProgError(*args)
+    if name == "RetryError":
+        return RetryError(*args)
+    return getattr(builtins, name)(*args)
+
+
+def c05_raise(name: str, args: list) -> None:
+    raise c05_make_exc(name, args)
+
+
+def c15_sig3(big, idx, opt="d"):  # type: ignore[no-untyped-def]
+    return f"{big}|{idx}|{opt}"
+
+
+def c15_sig5(a, b, c="c0", d="d0", e="e0"):  # type: ignore[no-untyped-def]
+    return f"{a}|{b}|{c}|{d}|{e}"
